@@ -136,7 +136,8 @@ package panos
 // Netspoc group was bound to it before, and only if it has exactly the same
 // members in the same order; the name handed back is the name of that group.
 //vc:func (*rulesPair).findGroupOnDevice
-//vc:  invariant[C03] 1 "for _, ga := range ab.a.vsys.AddressGroups" true
+//vc:  requires[C03] @searchedOnlyWhenUnbound gb.nameOnDevice == ""
+//vc:  invariant[C03] 1 "for _, ga := range ab.a.vsys.AddressGroups" gb.nameOnDevice == ""
 //vc:  invariant[C03] 2 "for i, n := range gb.Members" @membersEqualSoFar -1 <= rangeindex && (forall k int :: { gb.Members[k] } 0 <= k && k <= rangeindex ==> gb.Members[k] == ga.Members[k])
 //vc:  assert[C03] at "ga.needed = true" @deviceGroupBoundOnce !ga.needed && len(ga.Members) == len(gb.Members) && (forall k int :: { gb.Members[k] } 0 <= k && k < len(gb.Members) ==> gb.Members[k] == ga.Members[k])
 //vc:  assert[C03] at "gb.nameOnDevice = ga.Name" @netspocGroupBoundOnce gb.nameOnDevice == ""
@@ -157,7 +158,9 @@ package panos
 //vc:  ensures[C18] @deviceNeverNil result0 != nil
 //vc:  ensures[C18] @firstDeviceEntry (c != nil && c.Devices != nil && len(c.Devices.Entries) > 0) ==> result0 == c.Devices.Entries[0]
 //vc:  ensures[C18] @noDeviceNoName !(c != nil && c.Devices != nil && len(c.Devices.Entries) > 0) ==> result0.Name == ""
+// (inline: callers with loop invariants "in processVsysPairs" - GetChanges for C06/C09 - see the body)
 //vc:func processVsysPairs
+//vc:  inline
 //vc:  nullable c1, c2
 //vc:  invariant[C18] 1 "for _, v1 := range d1.Vsys" true
 //vc:  invariant[C18] 2 "for _, v2 := range d2.Vsys" true
